@@ -277,7 +277,7 @@ PROPS["C15"] = {
           "equals a reference walk written from RFC 8285 4.3", bound="8 symbolic bytes", module=RM, timeout=600),
         K("set_extension then get_extension (4 B block)", "c15_set_get_extension_4", "thorough", "bounded", ["RtpHeader::set_extension", "RtpHeader::get_extension"],
           "get(id) == Some(d), block 32-bit aligned",
-          bound="received block of 4 symbolic bytes (well-formed by assumption), 2-byte value", module=RM, timeout=1500),
+          bound="received block of 4 symbolic bytes (well-formed by assumption), 2-byte value", module=RM, timeout=3000),
         K("SDES item length octet (2 B text)", "c15_sdes_item_length_2", "quick", "bounded", ["build_sdes_body"], "length octet, terminator, padding", bound="text 2 bytes (item list ends on a 32-bit boundary)", module=RM, timeout=600),
         K("SDES item length octet (4 B text)", "c15_sdes_item_length_4", "quick", "bounded", ["build_sdes_body"], "same", bound="text 4 bytes", module=RM, timeout=600),
         K("SDES item length octet (5 B text)", "c15_sdes_item_length_5", "quick", "bounded", ["build_sdes_body"], "same", bound="text 5 bytes", module=RM, timeout=600),
@@ -292,8 +292,13 @@ PROPS["C15"] = {
         K("SDES item length octet (300 B text)", "c15_sdes_item_length_300", "quick", "bounded", ["build_sdes_body"],
           "text longer than 255 bytes is truncated to what the length octet can carry (never emits bytes its own parser mis-frames)", bound="text 300 bytes", module=RM, timeout=600),
         K("BYE reason length octet (300 B text)", "c15_bye_reason_length_300", "quick", "bounded", ["build_goodbye_body"], "same law for the BYE reason", bound="reason 300 bytes", module=RM, timeout=600),
+        K("set_extension then get_extension (no previous extension)", "c15_set_get_extension_fresh", "quick", "bounded", ["RtpHeader::set_extension", "RtpHeader::get_extension", "RtpHeader::validate"],
+          "one-byte-header block 0xBEDE created: (id<<4|len-1) || value, zero-padded to 32 bits; get(id) returns the value; header still valid",
+          bound="header without extension, 3-byte value, every id 1..14", module=RM, timeout=900),
+        K("set_extension rejects invalid id / length", "c15_set_extension_rejects_bad_args", "quick", "bounded", ["RtpHeader::set_extension"],
+          "id 0 or >= 15, empty or > 16-byte value => Err, header untouched", bound="header without extension", module=RM, timeout=600),
         K("set_extension keeps other ids (4 B block)", "c15_set_keeps_other_extension_4", "thorough", "bounded", ["RtpHeader::set_extension", "RtpHeader::get_extension"],
-          "every other extension id reads back unchanged after stamping one", bound="received block of 4 symbolic bytes (well-formed by assumption), 1-byte value", module=RM, timeout=1500),
+          "every other extension id reads back unchanged after stamping one", bound="received block of 4 symbolic bytes (well-formed by assumption), 1-byte value", module=RM, timeout=3000),
         K("RtpHeader::parse∘write_to (4-byte extension)", "c15_header_parse_of_write_ext4", "quick", "bounded", ["RtpHeader::parse", "RtpHeader::write_to"],
           "parsing what write_to emitted recovers marker, payload type, sequence number, timestamp, ssrc, extension profile and data; cursor consumed exactly",
           bound="no CSRC, extension data 4 bytes, parsed from &[u8]", module=RM),
@@ -397,7 +402,7 @@ PROPS["C07"] = {
               "Ok for every value; None exactly for short values / unknown family", bound="value length 0..20 (symbolic), any family", module=SM),
             K("set_extension total on a received 4-byte block", "c07_set_extension_total_4", "thorough", "bounded", ["RtpHeader::set_extension"],
               "stamping an extension on a parsed packet never panics, for every received one-byte-header block (well-formed or not)",
-              bound="received extension block of 4 symbolic bytes, 2-byte value", module=RM, timeout=2400),
+              bound="received extension block of 4 symbolic bytes, 2-byte value", module=RM, timeout=3000),
             K("canary: ServerHello::decode never succeeds on 38 bytes", "canary_server_hello_38_always_err", "quick", "canary", ["ServerHello::decode"],
               "false claim, must FAIL", expect="fail", module=HM2),
         ]
